@@ -37,22 +37,40 @@ fn spawn_worker(engine: &str, tier: Tier, seed: u64, first: u64, stride: u64, li
     cmd.spawn().expect("spawn worker")
 }
 
-fn collect(child: std::process::Child) -> Result<WorkerReport, String> {
+/// What became of a worker: its report, or the run index it died in
+enum Collected {
+    Report(WorkerReport),
+    Died { index: Option<u64>, how: String },
+}
+
+fn collect(child: std::process::Child) -> Result<Collected, String> {
     let mut child = child;
+    let pid = child.id();
     let mut text = String::new();
     if let Some(mut out) = child.stdout.take() {
         out.read_to_string(&mut text).map_err(|e| e.to_string())?;
     }
     let status = child.wait().map_err(|e| e.to_string())?;
     if !status.success() {
-        return Err(format!("worker exited with {status}"));
+        let path = engine::current_index_file(pid);
+        let index = std::fs::read(&path).ok().and_then(|b| b.get(..8).map(|s| u64::from_le_bytes(s.try_into().unwrap())));
+        let _ = std::fs::remove_file(&path);
+        return Ok(Collected::Died { index, how: format!("{status}") });
     }
     let line = text.lines().last().unwrap_or("");
-    serde_json::from_str::<WorkerReport>(line).map_err(|e| format!("bad worker report: {e}"))
+    serde_json::from_str::<WorkerReport>(line).map(Collected::Report).map_err(|e| format!("bad worker report: {e}"))
+}
+
+/// Read all children concurrently (a worker blocks on a full pipe otherwise)
+fn collect_all(children: Vec<std::process::Child>) -> Vec<Result<Collected, String>> {
+    let handles: Vec<_> = children.into_iter().map(|c| std::thread::spawn(move || collect(c))).collect();
+    handles.into_iter().map(|h| h.join().unwrap_or_else(|_| Err("collector thread panicked".to_string()))).collect()
 }
 
 struct EngineResult {
     name: String,
+    /// runs during which a worker process died: to be classified by replay
+    deaths: Vec<ReplayFile>,
     reports: Vec<WorkerReport>,
     determinism_compared: u64,
     determinism_mismatches: Vec<u64>,
@@ -74,12 +92,29 @@ fn run_engine(engine: &str, tier: Tier, seed: u64, workers: usize) -> Result<Eng
         det_children.push(spawn_worker(engine, tier, seed, w, det_workers, Some(det_n)));
     }
     let mut reports = Vec::new();
-    for c in children {
-        reports.push(collect(c)?);
-    }
+    let mut deaths: Vec<ReplayFile> = Vec::new();
+    let all = collect_all(children.into_iter().chain(det_children).collect());
     let mut det_reports = Vec::new();
-    for c in det_children {
-        det_reports.push(collect(c)?);
+    for (k, c) in all.into_iter().enumerate() {
+        match c? {
+            Collected::Report(r) => {
+                if k < workers {
+                    reports.push(r)
+                } else {
+                    det_reports.push(r)
+                }
+            }
+            Collected::Died { index, how } => {
+                let Some(index) = index else {
+                    return Err(format!("a worker died ({how}) before its first run"));
+                };
+                println!("note: engine={} a worker process died ({}) while executing run {}", engine, how, index);
+                let file: ReplayFile = crate::dispatch!(engine, E => engine::plan_of::<E>(tier, seed, index));
+                if !deaths.iter().any(|d| d.run_index == index) {
+                    deaths.push(file);
+                }
+            }
+        }
     }
     let mut main_hashes: BTreeMap<u64, String> = BTreeMap::new();
     for r in &reports {
@@ -101,6 +136,7 @@ fn run_engine(engine: &str, tier: Tier, seed: u64, workers: usize) -> Result<Eng
     }
     Ok(EngineResult {
         name: engine.to_string(),
+        deaths,
         reports,
         determinism_compared: compared,
         determinism_mismatches: mismatches,
@@ -150,22 +186,21 @@ fn known_match<'a>(known: &'a [Known], file: &ReplayFile) -> Option<&'a Known> {
     })
 }
 
-pub fn replay_file(path: &str, verbose: bool) -> i32 {
-    let text = match std::fs::read_to_string(path) {
-        Ok(t) => t,
-        Err(e) => {
-            eprintln!("cannot read {path}: {e}");
-            return 2;
-        }
-    };
-    let file: ReplayFile = match serde_json::from_str(&text) {
+fn load_replay(path: &str) -> Result<ReplayFile, String> {
+    let text = std::fs::read_to_string(path).map_err(|e| format!("cannot read {path}: {e}"))?;
+    serde_json::from_str(&text).map_err(|e| format!("cannot parse {path}: {e}"))
+}
+
+/// Execute the plan in *this* process (child side of `replay`)
+pub fn replay_exec(path: &str, verbose: bool) -> i32 {
+    let file = match load_replay(path) {
         Ok(f) => f,
         Err(e) => {
-            eprintln!("cannot parse {path}: {e}");
+            eprintln!("{e}");
             return 2;
         }
     };
-    println!("replaying engine={} property={} run_seed={} recorded class={}", file.engine, file.property, file.run_seed, file.class);
+    engine::start_watchdog();
     let violation = crate::dispatch!(file.engine.as_str(), E => engine::replay::<E>(&file, verbose));
     match violation {
         Some(v) => {
@@ -179,6 +214,62 @@ pub fn replay_file(path: &str, verbose: bool) -> i32 {
             0
         }
     }
+}
+
+/// Replay in a fresh child process, so that a crash or hang of the code under test
+/// is an observation, not the end of the replay command
+pub fn replay_file(path: &str, verbose: bool) -> i32 {
+    let file = match load_replay(path) {
+        Ok(f) => f,
+        Err(e) => {
+            eprintln!("{e}");
+            return 2;
+        }
+    };
+    println!("replaying engine={} property={} run_seed={} recorded class={}", file.engine, file.property, file.run_seed, file.class);
+    let mut cmd = Command::new(std::env::current_exe().expect("exe"));
+    cmd.arg("replay-exec").arg(path);
+    if !verbose {
+        cmd.arg("--quiet");
+    }
+    let status = cmd.env("RUST_BACKTRACE", "0").status();
+    match status {
+        Ok(st) => match st.code() {
+            Some(c @ 0..=2) => c,
+            Some(engine::EXIT_HANG) => {
+                println!("class={}|{}", file.property, engine::CLASS_HANG);
+                println!("VIOLATION property={} replay={}", file.property, path);
+                1
+            }
+            _ => {
+                println!("class={}|{}", file.property, engine::CLASS_ABORT);
+                println!("detail: child ended with {st}");
+                println!("VIOLATION property={} replay={}", file.property, path);
+                1
+            }
+        },
+        Err(e) => {
+            eprintln!("cannot spawn replay child: {e}");
+            2
+        }
+    }
+}
+
+/// Run `sim replay` on a file; the class it reports, if it reports a violation
+fn confirm(path: &Path) -> Option<String> {
+    let out = Command::new(std::env::current_exe().expect("exe"))
+        .arg("replay")
+        .arg(path)
+        .arg("--quiet")
+        .env("RUST_BACKTRACE", "0")
+        .stderr(Stdio::null())
+        .output()
+        .ok()?;
+    if out.status.code() != Some(1) {
+        return None;
+    }
+    let text = String::from_utf8_lossy(&out.stdout).to_string();
+    text.lines().find_map(|l| l.strip_prefix("class=").map(|c| c.to_string()))
 }
 
 /// Scan /repo/src for nondeterminism sources; the expected set is listed in DESIGN.md §1
@@ -332,6 +423,28 @@ pub fn run_property(property: &str, tier: Tier, seed: u64, workers: usize, root:
             }
         }
 
+        // runs in which a worker died: classify by replaying them in a fresh process
+        for d in &r.deaths {
+            let dir = Path::new(root).join("replays");
+            let _ = std::fs::create_dir_all(&dir);
+            let tmp = dir.join(format!("{}-{}-death-run{}.json", d.property, d.engine, d.run_index));
+            let _ = std::fs::write(&tmp, serde_json::to_string_pretty(d).unwrap_or_default());
+            match confirm(&tmp) {
+                Some(class) => {
+                    let mut d2 = d.clone();
+                    d2.class = class;
+                    d2.detail = format!("worker process died during run {}; classified by replay", d.run_index);
+                    violations.push(d2);
+                    violating += 1;
+                }
+                None => {
+                    println!("HARNESS-ERROR engine={} a worker died during run {} but replaying that run shows nothing ({})", r.name, d.run_index, tmp.display());
+                    harness_error = true;
+                }
+            }
+            let _ = std::fs::remove_file(&tmp);
+        }
+
         // violations: one per class, smallest plan first
         violations.sort_by(|a, b| (a.class.clone(), a.minimised_size, a.run_index).cmp(&(b.class.clone(), b.minimised_size, b.run_index)));
         let mut seen = BTreeSet::new();
@@ -361,19 +474,7 @@ pub fn run_property(property: &str, tier: Tier, seed: u64, workers: usize, root:
                 harness_error = true;
                 continue;
             }
-            let out = Command::new(std::env::current_exe().expect("exe"))
-                .arg("replay")
-                .arg(&path)
-                .arg("--quiet")
-                .env("RUST_BACKTRACE", "0")
-                .output();
-            let confirmed = match out {
-                Ok(o) => {
-                    let text = String::from_utf8_lossy(&o.stdout).to_string();
-                    o.status.code() == Some(1) && text.lines().any(|l| l == format!("class={}", v.class))
-                }
-                Err(_) => false,
-            };
+            let confirmed = confirm(&path).as_deref() == Some(v.class.as_str());
             if !confirmed {
                 println!("HARNESS-ERROR engine={} violation did not reproduce in a fresh process: {} ({})", r.name, v.class, path.display());
                 harness_error = true;
